@@ -387,7 +387,33 @@ func (w *world) faultPlan(li, a, b int, diff []string, universe []string) (out [
 	return out
 }
 
-func (w *world) pairTransitions(f *findings, bfs *bfs) {
+// part is one family of independent work items of a phase.
+type part struct {
+	n  int
+	fn func(i int)
+}
+
+// singleTransitions is the phase of everything that starts from a fresh
+// compile: the pair transitions (sessions and fresh-copy items), the physical
+// walks and the serial-skew items, spread over the worker processes together.
+func (w *world) singleTransitions(f *findings, bfs *bfs) {
+	parts := []part{w.pairTransitions(f, bfs), w.walks(f), w.serialSkew(f)}
+	total := 0
+	for _, p := range parts {
+		total += p.n
+	}
+	w.run("single", total, f, bfs, nil, func(i int) {
+		for _, p := range parts {
+			if i < p.n {
+				p.fn(i)
+				return
+			}
+			i -= p.n
+		}
+	})
+}
+
+func (w *world) pairTransitions(f *findings, bfs *bfs) part {
 	n := len(w.states)
 	// universe of lines that can be asked to be deleted: every preprocessed line of a one-line file
 	uni := map[string]bool{}
@@ -416,7 +442,7 @@ func (w *world) pairTransitions(f *findings, bfs *bfs) {
 
 	// one work item per (layout, A): one session on a copy of compile(A) serves every B; then one work item
 	// per (layout, pair of small files) for the fresh-copy transition
-	w.run("pairs", len(layouts)*n+len(layouts)*len(strictPairs), f, bfs, nil, func(i int) {
+	return part{len(layouts)*n + len(layouts)*len(strictPairs), func(i int) {
 		if i >= len(layouts)*n {
 			i -= len(layouts) * n
 			sp := strictPairs[i/len(layouts)]
@@ -508,7 +534,7 @@ func (w *world) pairTransitions(f *findings, bfs *bfs) {
 				layouts[li], A.name, A.name, orSame(diffExact(final, ca.ref)))
 			f.add(&failure{kind: "residue", li: li, path: []int{a}, detail: det})
 		}
-	})
+	}}
 }
 
 // strictPair is the statement, literally: a fresh copy of compile(A), the
@@ -934,7 +960,7 @@ func (w *world) pathNames(p []int) string {
 // open/ApplyDiff/close per step and without recompiling in between, so that
 // whatever RocksDB keeps besides the logical content (tombstones, several SST
 // files, manifests) is along for the ride.
-func (w *world) walks(f *findings) {
+func (w *world) walks(f *findings) part {
 	var small []int
 	for _, s := range w.states {
 		ok := len(s.src) == 0
@@ -952,7 +978,7 @@ func (w *world) walks(f *findings) {
 	w.r.Set("walk_depth", depth)
 	m := len(small)
 	// one work item per (layout, first file, second file); deeper steps are iterated inside
-	w.run("walks", len(layouts)*m*m, f, nil, nil, func(i int) {
+	return part{len(layouts) * m * m, func(i int) {
 		li := i / (m * m)
 		a, b := small[(i/m)%m], small[i%m]
 		if a == b {
@@ -990,7 +1016,7 @@ func (w *world) walks(f *findings) {
 			}
 		}
 		rec(base, []int{a, b}, [][]string{d1})
-	})
+	}}
 }
 
 func (w *world) walkStep(f *findings, li int, dir string, path []int, diffs [][]string) bool {
@@ -1026,7 +1052,7 @@ func (w *world) walkStep(f *findings, li int, dir string, path []int, diffs [][]
 // file is newer than the data file the store was compiled from). Preprocessed
 // files are supposed to be independent of the serial (the preprocessor pins it
 // into Z lines), so the deletion must go through and give compile(B).
-func (w *world) serialSkew(f *findings) {
+func (w *world) serialSkew(f *findings) part {
 	n := len(w.states)
 	var items [][2]int
 	for a := 0; a < n; a++ {
@@ -1037,7 +1063,7 @@ func (w *world) serialSkew(f *findings) {
 		}
 	}
 	w.r.Set("serial_skew_pure_deletion_pairs", len(items))
-	w.run("skew", len(layouts)*len(items), f, nil, nil, func(i int) {
+	return part{len(layouts) * len(items), func(i int) {
 		li, a, b := i/len(items), items[i%len(items)][0], items[i%len(items)][1]
 		diff := lineDiff(w.states[a].pre, w.states[b].pre)
 		dir := copyStore(w.comp[li][a].dir, w.scratch)
@@ -1066,7 +1092,7 @@ func (w *world) serialSkew(f *findings) {
 			f.add(&failure{kind: "serial-skew", li: li, path: []int{a, b}, detail: det, diffs: [][]string{diff},
 				how: "compile files[0].preprocessed with rdb.Compile serial 1234567; write the diff to a file, os.Chtimes it to unix time 1234568, rdb.ApplyDiff(diffpath, dir)"})
 		}
-	})
+	}}
 }
 
 func isSubLines(sub, sup []string) bool {
